@@ -44,15 +44,15 @@ func (r *vwRng) next() uint64 {
 	z = (z ^ (z >> 27)) * 0x94D049BB133111EB
 	return z ^ (z >> 31)
 }
-func (r *vwRng) below(n int) int         { return int(r.next() % uint64(n)) }
+func (r *vwRng) below(n int) int          { return int(r.next() % uint64(n)) }
 func (r *vwRng) chance(num, den int) bool { return r.below(den) < num }
 func (r *vwRng) pick(xs []string) string  { return xs[r.below(len(xs))] }
 
 // name pools: mapped names, targets of mappings, unmapped names, prefixes / substrings of mapped names, empty
 var (
-	vwNsPool    = []string{"orig", "orig", "orig2", "orig.cloud", "other-ns", "orig-x", "ori", "", "chain-a", "chain-b", "chain-c"}
-	vwOtherPool = []string{"orig", "x", "wf-1", "orig.cloud", "", "some value", "chain-a"}
-	vwKeyPool   = []string{"CustomA", "CustomB", "Other", "CustomA2", "Custom", "KeyX", "KeyY", "KeyZ"}
+	vwNsPool     = []string{"orig", "orig", "orig2", "orig.cloud", "other-ns", "orig-x", "ori", "", "chain-a", "chain-b", "chain-c"}
+	vwOtherPool  = []string{"orig", "x", "wf-1", "orig.cloud", "", "some value", "chain-a"}
+	vwKeyPool    = []string{"CustomA", "CustomB", "Other", "CustomA2", "Custom", "KeyX", "KeyY", "KeyZ"}
 	vwSerializer = serialization.NewSerializer()
 )
 
@@ -103,9 +103,11 @@ func vwJSONEncode(m proto.Message) ([]byte, error) { return codec.NewJSONPBEncod
 
 // ---------------- population ----------------
 type vwGen struct {
-	rng     *vwRng
-	budget  int
-	jsonEnc bool // allow JSON-encoded event blobs
+	rng       *vwRng
+	budget    int
+	jsonEnc   bool   // allow JSON-encoded event blobs
+	nsFixed   string // when set, every namespace field gets this name
+	jsonOften bool
 }
 
 func (g *vwGen) scalar(fd protoreflect.FieldDescriptor) protoreflect.Value {
@@ -129,6 +131,9 @@ func (g *vwGen) scalar(fd protoreflect.FieldDescriptor) protoreflect.Value {
 		return protoreflect.ValueOfFloat64(float64(g.rng.below(100)))
 	case protoreflect.StringKind:
 		if vwIsNamespaceField(fd) {
+			if g.nsFixed != "" {
+				return protoreflect.ValueOfString(g.nsFixed)
+			}
 			return protoreflect.ValueOfString(g.rng.pick(vwNsPool))
 		}
 		return protoreflect.ValueOfString(g.rng.pick(vwOtherPool))
@@ -177,6 +182,9 @@ func (g *vwGen) event(preferSkippable bool) *historypb.HistoryEvent {
 	}
 	for i := 0; i < nl; i++ {
 		ns := g.rng.pick(vwNsPool)
+		if g.nsFixed != "" {
+			ns = g.nsFixed
+		}
 		if i == 0 && g.rng.chance(1, 2) {
 			ns = ""
 		}
@@ -198,7 +206,7 @@ func vwEventTypeOf(fd protoreflect.FieldDescriptor) (enumspb.EventType, bool) {
 
 func (g *vwGen) eventBlob() *commonpb.DataBlob {
 	evs := g.events()
-	if g.jsonEnc && g.rng.chance(1, 4) {
+	if g.jsonEnc && (g.rng.chance(1, 4) || (g.jsonOften && g.rng.chance(1, 2))) {
 		data, err := vwJSONEncode(&historypb.History{Events: evs})
 		if err == nil {
 			return &commonpb.DataBlob{EncodingType: enumspb.ENCODING_TYPE_JSON, Data: data}
@@ -316,6 +324,13 @@ type vwRef struct {
 	matched   bool
 	names     []string // every namespace name encountered, including empty (unset) ones of present messages
 	collision bool     // a search-attribute container whose renamed keys collide (outside the property's domain)
+	// poisoning (C16: a forbidden name at exactly one path): overwrite the poisonAt-th namespace position
+	poison       bool
+	poisonAt     int
+	counter      int
+	poisonName   string
+	keepEncoding bool
+	sawBlob      bool
 }
 
 func (r *vwRef) walk(m protoreflect.Message) {
@@ -330,6 +345,13 @@ func (r *vwRef) walk(m protoreflect.Message) {
 	m.Range(func(fd protoreflect.FieldDescriptor, v protoreflect.Value) bool {
 		switch {
 		case vwIsNamespaceField(fd):
+			if r.poison {
+				if r.counter == r.poisonAt {
+					m.Set(fd, protoreflect.ValueOfString(r.poisonName))
+				}
+				r.counter++
+				return true
+			}
 			r.names = append(r.names, v.String())
 			if r.ns != nil {
 				if nv, ok := r.ns[v.String()]; ok {
@@ -376,7 +398,10 @@ func (r *vwRef) renameKeys(mp protoreflect.Map) {
 		v protoreflect.Value
 	}
 	var all []kv
-	mp.Range(func(k protoreflect.MapKey, v protoreflect.Value) bool { all = append(all, kv{k.String(), v}); return true })
+	mp.Range(func(k protoreflect.MapKey, v protoreflect.Value) bool {
+		all = append(all, kv{k.String(), v})
+		return true
+	})
 	for _, e := range all {
 		mp.Clear(protoreflect.ValueOfString(e.k).MapKey())
 	}
@@ -397,12 +422,20 @@ func (r *vwRef) blob(b *commonpb.DataBlob) *commonpb.DataBlob {
 	if b == nil || len(b.Data) == 0 {
 		return b
 	}
+	r.sawBlob = true
 	evs, err := vwSerializer.DeserializeEvents(b)
 	if err != nil {
 		return b
 	}
 	for _, e := range evs {
 		r.walk(e.ProtoReflect())
+	}
+	if r.keepEncoding && b.EncodingType == enumspb.ENCODING_TYPE_JSON {
+		data, err := vwJSONEncode(&historypb.History{Events: evs})
+		if err != nil {
+			panic(err)
+		}
+		return &commonpb.DataBlob{EncodingType: enumspb.ENCODING_TYPE_JSON, Data: data}
 	}
 	nb, err := vwSerializer.SerializeEvents(evs)
 	if err != nil {
@@ -647,7 +680,9 @@ func TestVerifWalker(t *testing.T) {
 				for _, allowedList := range [][]string{{"orig", "other-ns", "chain-a", "chain-b", "chain-c", "orig2", "orig.cloud", "orig-x", "ori"}, {"orig"}, {"orig", "orig2"}, {}} {
 					r := &vwRef{}
 					r.walk(proto.Clone(msg).ProtoReflect())
-					want := true
+					// want: refused iff a non-empty name outside the list occurs. Empty (unset) names are refused by the code
+					// wherever it looks at them - stricter than the property - but not inside skipped events: either answer is accepted.
+					want, lenient := true, false
 					if len(allowedList) > 0 {
 						for _, n := range r.names {
 							ok := false
@@ -656,16 +691,22 @@ func TestVerifWalker(t *testing.T) {
 									ok = true
 								}
 							}
-							if !ok {
+							if !ok && n != "" {
 								want = false
+							}
+							if !ok && n == "" {
+								lenient = true
 							}
 						}
 					}
 					got, err := isNamespaceAccessAllowed(logger, proto.Clone(msg), auth.NewAccesControl(allowedList))
 					if err != nil {
 						fmt.Fprintf(w, "ACL %s allowed=%v ERROR %v\n", id, allowedList, err)
-					} else if got != want {
+					} else if got != want && !(want && lenient) {
 						fmt.Fprintf(w, "ACL %s allowed=%v real=%v ref=%v names=%v\n", id, allowedList, got, want, r.names)
+					}
+					if want && lenient {
+						want = got
 					}
 					// through the interceptor (unary): handler reached iff allowed (and not a refused method)
 					ic := NewAccessControlInterceptor(logger, nil, allowedList)
@@ -680,6 +721,46 @@ func TestVerifWalker(t *testing.T) {
 						stats["acl_denied"]++
 					}
 					stats["acl_cases"]++
+				}
+				// a forbidden (or an allowed) name at exactly ONE namespace position, every other position allowed
+				for round := 0; round < 6; round++ {
+					pg := &vwGen{rng: &vwRng{s: rng.s + 17 + uint64(round)*101}, budget: 400, jsonEnc: true, nsFixed: "orig", jsonOften: round > 0}
+					clean := vwNew(root.full)
+					pg.fill(clean.ProtoReflect(), 3+rng.below(2))
+					cnt := &vwRef{poison: true, poisonAt: -1, keepEncoding: true}
+					cnt.walk(clean.ProtoReflect())
+					if round > 0 && !cnt.sawBlob {
+						break // extra rounds only for request types that carry history blobs
+					}
+					for k := 0; k < cnt.counter && k < 8; k++ {
+						at := k
+						if cnt.counter > 8 {
+							at = rng.below(cnt.counter)
+						}
+						for _, name := range []string{"forbidden-ns", "orig"} {
+							pm := proto.Clone(clean)
+							(&vwRef{poison: true, poisonAt: at, poisonName: name, keepEncoding: true}).walk(pm.ProtoReflect())
+							got, err := isNamespaceAccessAllowed(logger, proto.Clone(pm), auth.NewAccesControl([]string{"orig"}))
+							want := name == "orig"
+							chk := &vwRef{}
+							chk.walk(proto.Clone(pm).ProtoReflect())
+							lenient := false
+							for _, n := range chk.names {
+								if n == "" {
+									lenient = true
+								}
+							}
+							if err != nil {
+								fmt.Fprintf(w, "ACL %s poison@%d=%s ERROR %v\n", id, at, name, err)
+							} else if got != want && !(want && lenient) {
+								fmt.Fprintf(w, "ACL %s poison@%d/%d=%s round=%d real=%v ref=%v\n", id, at, cnt.counter, name, round, got, want)
+							}
+							stats["acl_single_position_cases"]++
+							if !want {
+								stats["acl_denied"]++
+							}
+						}
+					}
 				}
 			}
 		}
